@@ -548,6 +548,8 @@ bool QXmppStunMessage::decode(const QByteArray &buffer, const QByteArray &key, Q
     // parse STUN attributes
     int done = 0;
     bool after_integrity = false;
+    // if a key is given, the message must carry a MESSAGE-INTEGRITY attribute that verifies with it
+    bool integrityVerified = key.isEmpty();
     while (done < length) {
         quint16 a_type, a_length;
         stream >> a_type;
@@ -753,6 +755,7 @@ bool QXmppStunMessage::decode(const QByteArray &buffer, const QByteArray &key, Q
                     *errors << u"Bad message integrity"_s;
                     return false;
                 }
+                integrityVerified = true;
             }
 
             // from here onwards, only FINGERPRINT is allowed
@@ -777,7 +780,10 @@ bool QXmppStunMessage::decode(const QByteArray &buffer, const QByteArray &key, Q
             }
 
             // stop parsing, no more attributes are allowed
-            return true;
+            if (!integrityVerified) {
+                *errors << u"Missing message integrity"_s;
+            }
+            return integrityVerified;
 
         } else if (a_type == IceControlling) {
 
@@ -806,7 +812,10 @@ bool QXmppStunMessage::decode(const QByteArray &buffer, const QByteArray &key, Q
         stream.skipRawData(pad_length);
         done += 4 + a_length + pad_length;
     }
-    return true;
+    if (!integrityVerified) {
+        *errors << u"Missing message integrity"_s;
+    }
+    return integrityVerified;
 }
 
 ///
